@@ -28,6 +28,11 @@ pub async fn run_swarm_worker(
     server_start_instant: ServerStartInstant,
     worker_index: usize,
 ) -> anyhow::Result<()> {
+    #[cfg(aquatic_verif)]
+    if aquatic_common::verif::probe("http/swarm/start") {
+        return Ok(());
+    }
+
     let (_, mut request_receivers) = request_mesh_builder
         .join(Role::Consumer)
         .await
@@ -39,6 +44,11 @@ pub async fn run_swarm_worker(
     // Periodically clean torrents
     TimerActionRepeat::repeat(enclose!((config, torrents, access_list) move || {
         enclose!((config, torrents, access_list) move || async move {
+            #[cfg(aquatic_verif)]
+            if aquatic_common::verif::probe("http/swarm/clean") {
+                return None;
+            }
+
             torrents.borrow_mut().clean(&config, &access_list, server_start_instant);
 
             Some(Duration::from_secs(config.cleaning.torrent_cleaning_interval))
@@ -106,6 +116,11 @@ async fn handle_request_stream<S>(
     let mut rng: SmallRng = make_rng();
 
     while let Some(channel_request) = stream.next().await {
+        #[cfg(aquatic_verif)]
+        if aquatic_common::verif::probe("http/swarm/request") {
+            return;
+        }
+
         match channel_request {
             ChannelRequest::Announce {
                 request,
